@@ -219,4 +219,11 @@ def plan(tier):
                   space='one worker, one raw-handle job (run(async) | co_await pool(awaitable) | resume(suspend_point)) that meets a stopped pool: '
                         'submitted after stop(), queued when stop()/the destructor runs, submitted after a job stopped the pool from a worker',
                   bounds='1 worker, 1-2 jobs', outside='see h_pool')]
+    vs = [[n, parked, kind, k, drain] for n in range(2) for parked in range(2) for kind in range(3) for k in range(3) for drain in range(2)]
+    units.append(dict(common, name='h_stop_race', entry='h_stop_race', vectors=vs,
+                      concrete=[([0, 0, 2, 0, 1], [7]), ([1, 1, 0, 1, 0], [8]), ([0, 1, 1, 2, 1], [9]), ([1, 0, 2, 0, 0], [3])],
+                      space='a submission against stop() from another thread, interleaved at lock-region granularity: [workers 1..2, workers not yet run / all parked, kind (co_await pool, run(fn), '
+                            'run_detached), k = the mutex acquisition of the submission in front of which the complete stop() lands (1..3; beyond the last one: after the submission), drain]; full product',
+                      bounds='one submission, one stop(); the other thread\'s stop() runs as a whole between two critical sections of the submission',
+                      outside='raw-handle kinds (known finding D9); pre-emption inside a critical section (lock discipline: C03)'))
     return units
